@@ -32,7 +32,8 @@ from term_image.image import BlockImage, ITerm2Image, KittyImage  # noqa: E402
 from term_image.image import Size as DynSize  # noqa: E402
 from term_image.padding import AlignedPadding, ExactPadding, HAlign, VAlign  # noqa: E402
 from term_image.render import RenderIterator  # noqa: E402
-from term_image.renderable import Frame, Renderable  # noqa: E402
+from term_image.renderable import ArgsNamespace, Frame, FrameCount, Renderable, RenderArgs  # noqa: E402
+from term_image.padding import Padding  # noqa: E402
 
 DRIVER = "drv_c06"
 
@@ -326,9 +327,55 @@ class Scripted(Renderable):
             output.write(self.clear)
 
     def _handle_interrupted_draw_(self, render_data, render_args, output):
+        # as a real subclass would: its own render arguments decide what to write (they are the *normalized*
+        # arguments — `RenderArgs` of this very class — whatever draw() was given)
+        render_args[Scripted].marker
         if self.hook:
             output.write(self.hook)
             output.flush()
+
+
+class ScriptedArgs(ArgsNamespace, render_cls=Scripted):
+    marker: int = 0
+
+
+class ScriptedIndef(Scripted):
+    """INDEFINITE frame count: a finite stream of frames that all report number 0 (as the API prescribes), ended by
+    StopIteration; never cached by RenderIterator"""
+
+    def __init__(self, frames, size, clear="", hook=""):
+        Renderable.__init__(self, FrameCount.INDEFINITE, 1)
+        self.frames, self.size_, self.clear, self.hook = frames, Size(*size), clear, hook
+        self.events = []
+        self.data = None
+        self.pos = 0
+
+    def _get_render_data_(self, *, iteration):
+        self.pos = 0
+        return super()._get_render_data_(iteration=iteration)
+
+    def _render_(self, render_data, render_args):
+        d = render_data[Renderable]
+        if d.iteration and self.pos >= len(self.frames):
+            raise StopIteration  # the stream is exhausted (not an action: nothing is rendered)
+        n = self.pos
+        if d.iteration:
+            self.pos += 1
+        self.events.append(n)
+        if INJ.tick("render") is not None:
+            raise INJ.exc()
+        return Frame(0, 1, d.size, self.frames[n])
+
+
+class CustomPadding(Padding):
+    """a third-party Padding subclass: fixed dimensions"""
+
+    def __init__(self, fill=" ", dims=(0, 0, 0, 0)):
+        super().__init__(fill)
+        object.__setattr__(self, "dims", tuple(dims))
+
+    def _get_exact_dimensions_(self, render_size):
+        return self.dims
 
 
 def source_frames(d):
@@ -351,6 +398,8 @@ def make_padding(d, size):
     p = d["pad"]
     if p[0] == "exact":
         return ExactPadding(*p[1:5], fill=p[5])
+    if p[0] == "custom":
+        return CustomPadding(p[5], tuple(p[1:5]))
     return AlignedPadding(p[1], p[2], HAlign[p[3]], VAlign[p[4]], fill=p[5])
 
 
@@ -366,7 +415,8 @@ def run_new(d) -> RunResult:
     frames, size = source_frames(d)
     r = RunResult()
     r.size = size
-    rend = Scripted(frames, size, clear=d.get("clear", ""), hook=d.get("hook", ""))
+    rend = (ScriptedIndef if d.get("indefinite") else Scripted)(frames, size, clear=d.get("clear", ""), hook=d.get("hook", ""))
+    rargs = {None: None, "parent": RenderArgs(Renderable), "exact": RenderArgs(type(rend))}[d.get("rargs")]
     padding = make_padding(d, size)
     ft = FakeTermios(d.get("tattr", "default"))
     new_mod.termios = ft
@@ -392,7 +442,7 @@ def run_new(d) -> RunResult:
     sys.stdout = out
     try:
         try:
-            rend.draw(padding=padding, animate=d["animate"], loops=d["loops"], cache=d["cache"],
+            rend.draw(rargs, padding=padding, animate=d["animate"], loops=d["loops"], cache=d["cache"],
                       check_size=d["check_size"], allow_scroll=d["allow_scroll"],
                       hide_cursor=d["hide"], echo_input=d["echo"])
             r.outcome = "returned"
@@ -409,7 +459,11 @@ def run_new(d) -> RunResult:
     r.stream, r.ft = out, ft
     r.nactions, r.log = INJ.n, list(INJ.log)
     animation = d["animate"] and d["nframes"] > 1
-    if animation:
+    if animation and d.get("indefinite"):  # never cached, all numbered 0: the i-th frame yielded is the i-th of the stream
+        r.frames = [(True, frames[i]) for i in range(len(yielded))]
+        if INJ.fired and INJ.fired[0] == "render" and len(rend.events) > len(yielded):
+            r.frames.append((True, frames[rend.events[-1]]))
+    elif animation:
         r.frames = [(rd, frames[n]) for rd, n in yielded]
         if INJ.fired and INJ.fired[0] == "render" and len(rend.events) > sum(1 for rd, _ in yielded if rd):
             r.frames.append((True, frames[rend.events[-1]]))  # the frame whose render raised
@@ -458,8 +512,49 @@ def documented_hook(style: str) -> str:
     return {"kitty": ctl.ST * 2 + ctl.KITTY_END_CHUNKED, "iterm2": ctl.ST * 2}.get(style, "")
 
 
+_MISSING = object()
+
+
+def fresh_app_subclass(d):
+    """an application subclass of KittyImage in a FRESH support state: the base class has never been probed; the
+    terminal's identity reaches the subclass through `is_supported()` called on the subclass (fake query layer).
+    Returns (subclass, restore)."""
+    names = ("_supported", "_KITTY_VERSION", "_TERM", "_TERM_VERSION")
+    saved = {n: KittyImage.__dict__.get(n, _MISSING) for n in names}
+    saved_q = old_kitty.query_terminal
+    saved_nv = env.state["name_version"]
+    KittyImage._supported, KittyImage._KITTY_VERSION, KittyImage._TERM, KittyImage._TERM_VERSION = None, (), "", ""
+    env.state["name_version"] = ("kitty", ".".join(map(str, d["kitty_version"])))
+    old_kitty.query_terminal = lambda *a, **k: b"\x1b_Gi=31;OK\x1b\\\x1b[?62;c"
+    app = type("App", (KittyImage,), {})
+    assert app.is_supported() and app._KITTY_VERSION == tuple(d["kitty_version"]) and KittyImage._KITTY_VERSION == ()
+
+    def restore():
+        for n, v in saved.items():
+            if v is _MISSING:
+                if n in KittyImage.__dict__:
+                    delattr(KittyImage, n)
+            else:
+                setattr(KittyImage, n, v)
+        old_kitty.query_terminal = saved_q
+        env.state["name_version"] = saved_nv
+
+    return app, restore
+
+
 def run_old(d) -> RunResult:
     cls = setup_style(d)
+    restore_cls = None
+    if d.get("subclass") and d["style"] == "kitty" and d.get("kitty_version"):
+        cls, restore_cls = fresh_app_subclass(d)
+    try:
+        return _run_old(d, cls)
+    finally:
+        if restore_cls:
+            restore_cls()
+
+
+def _run_old(d, cls) -> RunResult:
     r = RunResult()
     im = cls(gif_for(d))
     if d.get("dynamic"):
@@ -546,7 +641,8 @@ def run_old(d) -> RunResult:
     r.size = size
     pre = int(d["style"] == "iterm2" and d.get("term") == "wezterm" and not d.get("mix", False) and animation)
     clear = ""
-    if d["style"] == "kitty" and animation and KittyImage._KITTY_VERSION and KittyImage._KITTY_VERSION <= (0, 25, 0):
+    kv = tuple(d.get("kitty_version") or ())
+    if d["style"] == "kitty" and animation and kv and kv <= (0, 25, 0):
         clear = ctl.KITTY_DELETE_Z_INDEX % -(1 << 31)
     hal = d["h_align"] or "|"
     val = d["v_align"] or "-"
@@ -662,6 +758,10 @@ def random_config(rng: random.Random, tier: str, api=None) -> dict:
         d["mix"] = rng.random() < 0.3
     else:
         d["term"] = rng.choice(["", "kitty"])
+    if api == "new":
+        d["rargs"] = rng.choice([None, None, "parent", "exact"])  # what draw() is given as `render_args`
+        if d["nframes"] >= 3 and rng.random() < 0.25:
+            d.update(indefinite=True, loops=-1, cache=100)
     return d
 
 
@@ -812,7 +912,7 @@ class C06(Property):
                         for check in (True, False):
                             for rel in ("fits", "w-1", "h-1", "both"):
                                 d = random_config(rng, tier, api)
-                                d.update(style="block", term="", nframes=2 if animated else 1, animate=animate,
+                                d.update(style="block", term="", nframes=2 if animated else 1, animate=animate, indefinite=False,
                                          allow_scroll=scroll, check_size=check, cols=rng.randrange(3, 7),
                                          lines=rng.randrange(3, 6), by_width=rng.random() < 0.5, loops=1)
                                 for k in ("method", "mix", "kitty_version"):
@@ -822,13 +922,56 @@ class C06(Property):
                                     d["dynamic"] = False
                                 d["op"] = "validate"
                                 yield Case("", d, f"validate-grid-{api}-{rel}", True)
+        # … and paddings of every shape — AlignedPadding (relative, relative), (relative, absolute), (absolute, relative),
+        # absolute; ExactPadding; a third-party Padding subclass — with the absolute component at terminal-1 / terminal /
+        # terminal+1, for a still image, a still image that may scroll, and an animation
+        for mode in ("still", "still-scroll", "anim"):
+            base = random_config(rng, tier, "new")
+            base.update(style="block", term="", nframes=2 if mode == "anim" else 1, animate=True, check_size=True, indefinite=False,
+                        allow_scroll=mode != "still", cols=rng.randrange(3, 6), lines=rng.randrange(2, 4),
+                        by_width=True, loops=1, cache=False)
+            for k in ("method", "mix", "kitty_version"):
+                base.pop(k, None)
+            _, (w, h) = source_frames({**base, "W": 200, "H": 100})
+            W, H = w + rng.randrange(3, 7), h + rng.randrange(3, 6)
+            around = [(-1, -1), (0, 0), (1, 0), (0, 1), (1, 1)]
+            hv = lambda: [rng.choice(["LEFT", "CENTER", "RIGHT"]), rng.choice(["TOP", "MIDDLE", "BOTTOM"])]  # noqa: E731
+            shapes = [["aligned", 0, -2, *hv(), " "], ["aligned", -1, 0, *hv(), " "]]
+            shapes += [["aligned", rng.choice([0, -1]), H + dy, *hv(), " "] for dy in (-1, 0, 1)]
+            shapes += [["aligned", W + dx, rng.choice([0, -2]), *hv(), " "] for dx in (-1, 0, 1)]
+            shapes += [["aligned", W + dx, H + dy, *hv(), " "] for dx, dy in around]
+            for kind_ in ("exact", "custom"):
+                for dx, dy in around:
+                    l, t = rng.randrange(0, W + dx - w + 1), rng.randrange(0, H + dy - h + 1)
+                    shapes.append([kind_, l, t, W + dx - w - l, H + dy - h - t, " "])
+            for pad in shapes:
+                d = dict(base)
+                d.update(pad=pad, W=W, H=H, op="validate", _rel="grid")
+                yield Case("", d, f"validate-padding-{pad[0]}-{mode}", True)
+        # new-API animations of INDEFINITE renderables (frames all numbered 0, never cached) with draw()'s default
+        # `cache` / `loops`: what is visible afterwards is the LAST frame of the stream
+        for _ in range(6):
+            d = random_config(rng, tier, "new")
+            d.update(style=rng.choice(["block", "block", "kitty"]), nframes=rng.choice([3, 4, 5]), animate=True,
+                     indefinite=True, loops=-1, cache=100, check_size=True, allow_scroll=False)
+            if d["style"] == "kitty":
+                d.update(method=rng.choice(["lines", "whole"]), term="kitty", kitty_version=[0, 30, 1], mix=False)
+            else:
+                d["term"] = ""
+                for k in ("method", "mix", "kitty_version"):
+                    d.pop(k, None)
+            d = finish_geometry(rng, d, "fits")
+            d["op"] = "trace"
+            yield Case("", d, "new-indefinite-anim", True)
         # old-API kitty animations with style arguments passed to draw(), on kitty <= 0.25.0 (frames cleared by z-index)
         # and > 0.25.0 (cleared by delete-at-cursor), partly transparent frames: a frame left behind shows through
+        # … and on an application SUBCLASS in a fresh support state (the base class never probed)
         for version in ([0, 25, 0], [0, 30, 1], [0, 21, 2]):
             for method in ("lines", "whole"):
                 for z in (None, 5, -7):
                     d = random_config(rng, tier, "old")
                     d.update(style="kitty", term="kitty", kitty_version=version, method=method, z_index=z,
+                             subclass=(z != 5),
                              mix=rng.random() < 0.5, compress=rng.choice([0, 4]),
                              nframes=rng.choice([2, 3]), animate=True, loops=rng.choice([1, 2]), tty=True,
                              check_size=True, allow_scroll=False, cols=rng.randrange(2, 7), lines=rng.randrange(1, 5))
@@ -1074,6 +1217,20 @@ class C06(Property):
         return fails
 
 
+def hook_arg_name(fn, callee: str) -> str:
+    """the local name passed as the render-arguments argument (2nd positional) of every `self.<callee>(…)` call in `fn`
+    (read from the AST of the live function); `?` if the calls disagree or there is none"""
+    import ast
+    import inspect
+    import textwrap
+    names = set()
+    for node in ast.walk(ast.parse(textwrap.dedent(inspect.getsource(fn)))):
+        if isinstance(node, ast.Call) and isinstance(node.func, ast.Attribute) and node.func.attr == callee:
+            a = node.args[1] if len(node.args) > 1 else None
+            names.add(a.id if isinstance(a, ast.Name) else "?")
+    return names.pop() if len(names) == 1 else "?"
+
+
 def gen_c06() -> dict[str, str]:
     """constants of the draw paths read from the live objects"""
     import inspect
@@ -1102,6 +1259,9 @@ def gen_c06() -> dict[str, str]:
         f"def hideCursor : String := {lean_str(ctl.HIDE_CURSOR)}",
         f"def showCursor : String := {lean_str(ctl.SHOW_CURSOR)}",
         f"def kittyAnimZ : Int := {-(1 << 31)}",
+        f"def hookArgsStill : String := {lean_str(hook_arg_name(Renderable.draw, '_handle_interrupted_draw_'))}",
+        f"def animateArgs : String := {lean_str(hook_arg_name(Renderable.draw, '_animate_'))}",
+        f"def hookArgsAnim : String := {lean_str(hook_arg_name(Renderable._animate_, '_handle_interrupted_draw_'))}",
         "end TIV.C06.Generated",
     ]
     return {"TIV/C06/Generated.lean": "\n".join(lines) + "\n"}
